@@ -385,9 +385,140 @@ def run_case(ctx, case, rng):
         p.close()
 
 
+# ---------------------------------------------------------------------------
+# peer CLOSE / EOF / want_reply request handled while this side is inside a key exchange, then idle re-keys
+MSG_KEXINIT, MSG_NEWKEYS = 20, 21
+
+
+def gen_kex_case(rng, idx):
+    return dict(kind="close-during-kex", subject="cs"[idx % 2], peer=("close", "eof+close", "request+close", "eof")[idx // 2 % 4],
+                idle_rekeys=1 + idx % 3, later_initiators=[rng.choice("cs") for _ in range(3)], data=rng.choice((0, 10, 5000)))
+
+
+def run_kex_case(ctx, case, rng):
+    subj = case["subject"]  # X: the side that processes the peer's messages mid-kex
+    p = pair.Pair(rng=rng)
+    cm.watch(p.tc, p.rec, "c")
+    cm.watch(p.ts, p.rec, "s")
+    try:
+        if not p.start() or not p.auth():
+            ctx.inconclusive("handshake failed (kex stratum)")
+            return
+        cm.diverge_ids(p, rng)
+        c, s = p.session()
+        if s is None:
+            ctx.inconclusive("no server channel (kex stratum)")
+            return
+        x, y = (c, s) if subj == "c" else (s, c)
+        tx, ty = (p.tc, p.ts) if subj == "c" else (p.ts, p.tc)
+        yside = "s" if subj == "c" else "c"
+        to_x = p.link.ba if subj == "c" else p.link.ab  # direction that carries what Y sends
+        if case["data"]:
+            y.send(b"\x33" * case["data"])
+            x.send(b"\x44" * case["data"])
+            p.wait_quiet(0.02, 5)
+        to_x.hold()
+        req = None
+        if "request" in case["peer"] and yside == "c":
+            # a want_reply channel request (the reply is generated on X's transport thread)
+            req = threading.Thread(target=lambda: do_op_exec(y, p.rec, yside), daemon=True)
+            req.start()
+            pair.wait_for(lambda: len(p.msgs(yside, "out", (cm.REQUEST,))) > 0, 10, 0.002)
+        if "eof" in case["peer"]:
+            do_op(y, "shutdown_write", 0, p.rec, yside)
+        if "close" in case["peer"]:
+            do_op(y, "close", 0, p.rec, yside)
+        n_kex = len(p.msgs(subj, "out", (MSG_KEXINIT,)))
+        errs = []
+
+        def rekey(tr):
+            try:
+                tr.renegotiate_keys()
+            except Exception as e:
+                errs.append(repr(e))
+
+        rk = threading.Thread(target=rekey, args=(tx,), daemon=True)
+        rk.start()
+        if not pair.wait_for(lambda: len(p.msgs(subj, "out", (MSG_KEXINIT,))) > n_kex, 20, 0.002):
+            ctx.inconclusive("X never sent KEXINIT (kex stratum)")
+            to_x.release()
+            return
+        to_x.release()  # EOF / CLOSE / request now reach X inside its key exchange
+        rk.join(90)
+        if req is not None:
+            req.join(30)
+        if rk.is_alive() or errs:
+            ctx.inconclusive("re-key with in-flight close did not complete: %s" % errs)
+            return
+        p.wait_quiet(0.05, 10)
+        # did X really read the peer's message inside its kex window (own KEXINIT .. own NEWKEYS)?
+        inside = False
+        open_kex = False
+        for e in p.rec.snapshot():
+            if e.get("kind") != "msg" or e["side"] != subj:
+                continue
+            if e["dir"] == "out" and e["type"] == MSG_KEXINIT:
+                open_kex = True
+            elif e["dir"] == "out" and e["type"] == MSG_NEWKEYS:
+                open_kex = False
+            elif e["dir"] == "in" and open_kex and e["type"] in (cm.CLOSE, cm.EOF, cm.REQUEST):
+                inside = True
+                ctx.count("closes_handled_during_kex" if e["type"] == cm.CLOSE else
+                          "eofs_handled_during_kex" if e["type"] == cm.EOF else "requests_handled_during_kex")
+        if not inside:
+            ctx.count("kex_cases_message_missed_the_window")
+        # idle re-keys: nobody uses the connection layer now
+        for k in range(case["idle_rekeys"]):
+            tr = p.tc if case["later_initiators"][k] == "c" else p.ts
+            mark = len(p.rec.events)
+            t = threading.Thread(target=rekey, args=(tr,), daemon=True)
+            t.start()
+            t.join(90)
+            if t.is_alive() or errs:
+                ctx.inconclusive("idle re-key did not complete: %s" % errs)
+                return
+            p.wait_quiet(0.05, 10)
+            ctx.count("idle_rekeys_after_close")
+            for e in p.rec.snapshot()[mark:]:
+                if e.get("kind") == "msg" and e["dir"] == "out" and e["type"] >= 80:
+                    ctx.violation("connection-layer message sent during an idle re-key (%s)" % cm.NAMES.get(e["type"], e["type"]),
+                                  "with no application activity a key re-exchange made side %s emit message type %d" % (
+                                      e["side"], e["type"]), dict(case=case, rekey=k))
+                    break
+        # finish the life cycle and run the automaton over the whole tap
+        do_op(x, "close", 0, p.rec, subj)
+        do_op(y, "close", 0, p.rec, yside)
+        released = pair.wait_for(lambda: p.tc._channels.get(c.get_id()) is None and p.ts._channels.get(s.get_id()) is None
+                                 and p.link.quiescent(0.02), 5, 0.003)
+        final = released or p.wait_quiet(ctx.pick(3.0, 6.0), 30)
+        ev = p.rec.snapshot()
+        for side, tr in (("c", p.tc), ("s", p.ts)):
+            insts, _ = cm.ledger(ev, side)
+            for inst in insts:
+                automaton(ctx, inst, tr, case, final)
+        ctx.count("kex_cases_run")
+        return inside
+    finally:
+        p.close()
+
+
+def do_op_exec(chan, rec, side):
+    rec.add(kind="api", side=side, op="exec_command", phase="call", thread=threading.get_ident())
+    try:
+        chan.exec_command("true")
+        res = "ok"
+    except Exception as e:
+        res = "raise:" + type(e).__name__
+    rec.add(kind="api", side=side, op="exec_command", phase="ret", res=res, thread=threading.get_ident())
+
+
 def run(ctx):
     cm.install()
     rng = ctx.rng
+    for i in range(ctx.pick(6, 40)):
+        case = gen_kex_case(rng, i * ctx.nshards + ctx.shard)
+        r = ctx.guard(run_kex_case, ctx, case, rng)
+        ctx.case(("c22-kex", repr(case)), sample=case if i == 0 else None, nontrivial=bool(r))
     n = ctx.pick(30, 300)
     dl = ctx.deadline(30, 400)
     for i in range(n):
@@ -405,3 +536,6 @@ def run(ctx):
     ctx.require("released_channel_ops", 500)
     ctx.require("data_msgs_seen", 200)
     ctx.require("cases_with_end_during_send", 15)
+    ctx.require("closes_handled_during_kex", 20)
+    ctx.require("idle_rekeys_after_close", 40)
+    ctx.require("kex_cases_run", 30)
